@@ -28,7 +28,27 @@ def toy_model(theta, N, seed):  # noqa: N803
     return x + th.mean()
 
 
+class InfMixLoss:
+    """a loss that is +inf / -inf on part of the parameter space (a diverging simulation, an undefined likelihood) and finite elsewhere;
+    a deterministic function of the simulated data, module-level so that it pickles"""
+
+    def __new__(cls):
+        from black_it.loss_functions.minkowski import MinkowskiLoss
+
+        class _InfMix(MinkowskiLoss):
+            def compute_loss(self, sim_data_ensemble, real_data):
+                v = float(super().compute_loss(sim_data_ensemble, real_data))
+                m = float(np.mean(sim_data_ensemble))
+                return float("inf") if m > 0.62 else -float("inf") if m < 0.12 else v
+
+            def __reduce__(self):
+                return (InfMixLoss, ())
+        return _InfMix()
+
+
 def make_loss(name):
+    if name == "infmix":
+        return InfMixLoss()
     if name == "minkowski":
         from black_it.loss_functions.minkowski import MinkowskiLoss
         return MinkowskiLoss()
